@@ -12,7 +12,8 @@
 From PV Require Import Base.Bytes Base.Res.
 From PV Require Import Spec.EncapParser Spec.MRParser Spec.TargetIface Spec.TargetCore.
 From PV Require Import Proofs.LifecycleTarget Model.Lifecycle Proofs.LifecycleP Proofs.LifecycleReopen
-  Proofs.LifecycleInv Proofs.LifecycleHistory.
+  Proofs.LifecycleInv Proofs.LifecycleHistory Proofs.LifecycleReplyBridge Proofs.LifecycleUpload.
+From PV Require Model.Reply.
 Open Scope Z_scope.
 
 (* inputs: injected service errors carry a status whose byte is not 0; route segments are byte
@@ -120,6 +121,44 @@ Proof.
   split; [exact C10_library_exceptions_only |]. split; [exact C10_close_resets | exact C10_reopen_works].
 Qed.
 
+(* ================================================================ the tie to C13 and the upload abstraction *)
+(* The lifecycle model decides "RegisterSession granted", "Forward Open granted / refused" and "generic
+   reply ok" with its own small predicates.  For EVERY byte string they agree with Model/Reply.v, the
+   model of the response classes that C13 proves correct against the status words of the wire
+   layout: same validity and session for RegisterSession; for generic_message (which _forward_open
+   and _forward_close go through) the same exception class, or the same Tag truthiness and value. *)
+Definition reply_classification_is_C13s : Prop :=
+  (forall raw, bytes_ok raw = true ->
+     register_valid raw = Reply.is_valid Reply.KRegister (Reply.parse_register raw)
+     /\ Reply.register_session raw = if register_valid raw then Some (register_session_of raw) else None)
+  /\ (forall k raw, bytes_ok raw = true ->
+        valid k raw = Reply.is_valid (rk k) (parse_k k raw)
+        /\ match Reply.generic_message (rk k) None raw with
+           | Reply.RErr e _ => classify k raw = Err e
+           | Reply.ROk t => classify k raw = Ok (Reply.tag_truthy t, data_of k raw)
+           end).
+
+Theorem C10_reply_classification : reply_classification_is_C13s.
+Proof.
+  split.
+  - intros raw Hok. apply register_reply_agrees. exact Hok.
+  - intros k raw Hok. split; [apply (cip_reply_agrees k raw Hok) | apply classify_agrees; exact Hok].
+Qed.
+
+(* LogixDriver.open(init_tags=True) uploads the tag list: any number of @with_forward_open calls, each
+   sending any number of connected requests.  The theorems above treat it as [ConnectedCall]
+   operations of the history; that abstraction is sound for ANY number of calls, requests and
+   replies: from every reachable state the sequence keeps the reachability invariant and the
+   lifecycle invariant (so C10_holds covers histories whose open() includes the upload). *)
+Definition upload_abstraction_sound : Prop :=
+  forall S (h : handler S) cfg0 logix flt calls (s : st (S := S)),
+    Good h cfg0 s -> Inv h s ->
+    let r := run_ops h logix flt s (upload_ops calls) in
+    Good h cfg0 (fst r) /\ Inv h (fst r) /\ Forall (fun o => lib_outcome (o_out o)) (snd r).
+
+Theorem C10_upload_abstraction : upload_abstraction_sound.
+Proof. intros S h cfg0 logix flt calls s. apply upload_preserves. Qed.
+
 (* ================================================================ non-vacuity *)
 (* a fault-free history on which connected frames DO reach the target (so the theorems speak about
    something), a Large-refusing policy under which a standard Forward Open IS sent, and a
@@ -161,4 +200,6 @@ Print Assumptions C10_fo_order.
 Print Assumptions C10_library_exceptions_only.
 Print Assumptions C10_close_resets.
 Print Assumptions C10_reopen_works.
+Print Assumptions C10_reply_classification.
+Print Assumptions C10_upload_abstraction.
 Print Assumptions C10_inhabited.
